@@ -10,7 +10,7 @@ CHECKS = {
          "trusts pocec signature verification, hdkeychain for expected keys (checked separately by C18), the db interface for the logical dump; scrypt cost lowered to N=16 for speed",
          "DESIGN.md §3 C01"),
  "C02": ("exploration", "restart after every prefix of seeded wallet histories; differential against the running instance, an abstract model of acknowledged operations, next-key prediction and passphrase-behaviour probes",
-         "Each (history, prefix) is executed on the real wallet over the real leveldb store, the store is closed and reopened, and the reopened wallet must equal the running one, the model of acknowledged operations, issue the predicted next keys and answer passphrase probes as before; wrong public passphrases must fail and leave the logical dump unchanged. Held = on the prefixes explored.",
+         "Each (history, prefix) is executed on the real wallet over the real leveldb store, the store is closed and reopened, and the reopened wallet must equal the running one, the model of acknowledged operations, issue the predicted next keys and answer passphrase probes (export per keystore, unlock of the locked wallet) as before; a few keystores carry 250-310 keys on one branch; wrong public passphrases must fail and leave the logical dump unchanged. Held = on the prefixes explored.",
          "trusts hdkeychain derivation for predicted keys, the harness model of acknowledged operations (30 lines), goleveldb",
          "DESIGN.md §3 C02"),
  "C03": ("exploration", "seeded wallet histories with hostile passphrase arguments; success=>current-passphrase oracle, cross-keystore governance probe, and in-memory secret-validity invariant through the H4 inspector after every step",
@@ -18,11 +18,11 @@ CHECKS = {
          "trusts the H4 inspector (read-only, takes the package's own locks), snacl for recovering the true keys from the store",
          "DESIGN.md §3 C03"),
  "C04": ("exploration", "byte scan of store files, exports, API-written files and node log for ground-truth secrets after every operation, with positive control",
-         "After every operation of every history (half of the passphrase-bearing calls go through api.Server handlers, logging at trace) all bytes on disk, all exports and the new log bytes are searched for every secret of the history (seed, all BIP32 private keys as scalar and xprv, crypto keys, scrypt master keys, passphrases) in raw/hex/HEX/base64 encodings. Held = none found in this run; a planted secret must be found or the run is inconclusive.",
+         "After every operation of every history (half of the passphrase-bearing calls go through api.Server handlers, logging at trace) all bytes on disk, all exports and the new log bytes are searched for every secret of the history (seed, all BIP32 private keys as scalar and xprv, crypto keys, scrypt master keys, passphrases) in raw/hex/HEX/base64 encodings. Every other API import is preceded by the same request with an unusable path (missing, a directory, not a keystore), so the handlers' failure paths see the passphrases too. Held = none found in this run; a planted secret must be found or the run is inconclusive.",
          "needles >= 6 bytes; encodings limited to raw, hex, HEX, base64 (whole groups), text; compression inside leveldb tables is not undone (goleveldb default snappy may hide a needle inside a compressed block; the journal and small tables are scanned uncompressed)",
          "DESIGN.md §3 C04"),
  "C05": ("exploration", "every issued key signs at every unlocked point of seeded histories; external pocec verification and cross-key/foreign/locked refusal",
-         "At every unlocked step every key ever issued (locked/unlocked, both branches, before/after restart, import, passphrase change) signs fresh digests and messages; signatures are verified outside the wallet under exactly the requested key and must not verify under another issued key; foreign keys and a locked wallet must be refused. Held = on the signatures of this run.",
+         "At every unlocked step every key ever issued (locked/unlocked, both branches, before/after restart, import, passphrase change) signs fresh digests and messages; signatures are verified outside the wallet under exactly the requested key and must not verify under another issued key; foreign keys and a locked wallet must be refused; one history in eight ends with a keystore of 250-310 keys on one branch, a restart and signatures from all of them. Held = on the signatures of this run.",
          "trusts pocec.Signature.Verify and wire.HashH from mass-core",
          "DESIGN.md §3 C05"),
  "C06": ("exploration", "issuance log with set oracle (unique keys make histories unambiguous), sequential histories and 2-8 concurrent issuers, restart and lookup agreement",
@@ -58,15 +58,15 @@ CHECKS = {
          "wall-clock watchdog (45 s against normal latencies of micro- to milliseconds) decides 'never returns' together with the dump; real plots only at bit lengths 12-16",
          "DESIGN.md §3 C13"),
  "C14": ("exploration", "Go race detector over concurrent wallet histories in child processes (reports filtered to repository frames) + porcupine linearizability check of every recorded history against a sequential wallet model + interval oracle over observer-stress histories + quiescent-state inspection; injected pauses after store commits",
-         "2-4 goroutines issue mixed wallet operations on 1-2 keystores under -race; every call is recorded at the client boundary with one monotonic clock and every history is checked with porcupine against a sequential model (issued indices, lock flag, remark, export contents, lookups); race reports whose two accesses are both in repository code are violations, de-duplicated by function pair; a dead child is a crash; at the end the H4 locked-memory invariant and reopen equality are checked. Two in three histories run over a store that pauses up to 4 ms after 35% of its commits (widening the window between store update and in-memory publication), every fifth is remark-heavy, and every tenth case is an observer-stress history (1-2 writers issue 40-92 keys; 3-5 readers poll counts, listings and ordinal lookups in a tight loop; every answer must lie between what was acknowledged before the call and what was requested by its return; counts never decrease). Held = no report / all histories linearizable / all observer answers possible in this run.",
+         "2-4 goroutines issue mixed wallet operations on 1-2 keystores under -race; every call is recorded at the client boundary with one monotonic clock and every history is checked with porcupine against a sequential model (issued indices, lock flag, remark, export contents, lookups); race reports whose two accesses are both in repository code are violations, de-duplicated by function pair; a dead child is a crash; at the end the H4 locked-memory invariant and reopen equality are checked. Two in three histories run over a store that pauses up to 4 ms after 35% of its commits (widening the window between store update and in-memory publication), every fifth is remark-heavy, and every tenth case is an observer-stress history (1-2 writers issue 40-92 keys; 3-5 readers poll counts, listings and ordinal lookups in a tight loop; every answer must lie between what was acknowledged before the call and what was requested by its return; counts never decrease), another tenth a governance race (ImportKeystore / NewKeystore under the current private passphrase racing ChangePrivPassphrase: afterwards one passphrase must export every keystore and unlock the wallet). Held = no report / all histories linearizable / all observer answers possible in this run.",
          "race detector only sees executed interleavings; porcupine timeout (60 s) = dropped case; model allows Unlock(current) to fail on an already unlocked wallet (sequential behaviour of the code)",
          "DESIGN.md §3 C14"),
  "C15": ("exploration", "seeded scenario exploration of the real capacity keeper, wallet, massdb.v1 header-only plot files and api.Server capacity handlers with an arithmetic and directory-listing oracle, plus restart comparison",
          "Scenarios run ConfigureBySize/ByPath/ByBitLength/ByFlags, the API capacity handlers, removals and keeper restarts over 0-6 pre-existing spaces in 1-3 directories; every call is judged from returned infos, directory listings before/after and disk.Usage free space for size arithmetic (sum <= request, gap < smallest plot), reuse-before-create, directory placement, exact counts, rejection without files (incl. overflow-sized requests), and re-discovery after restart; two in five scenarios spell miner.proof_dir non-canonically (relative, through '..', trailing '/' or '/.'), and every api.ConfigureCapacityByDirs response is compared per directory with the selection. Held = on the scenarios executed, bit lengths 24-30, nothing plotted.",
          "free disk space is read with the same gopsutil call the code uses, requests near the boundary are not judged; trusts mass-core PlotSize",
          "DESIGN.md §3 C15"),
- "C16": ("exploration", "seeded generators with real BLS elements + structure-aware JSON/type-prefix/hex/BLS-point mutator over valid encodings, child-process batches with progress-file crash attribution, hang/RSS watchdog and per-input allocation accounting; thorough re-runs a slice under go build -asan",
-         "Every generated message of the six types is encoded and decoded by the real codec and compared field by field; every mutated or random byte string up to the 2 MiB receive limit is decoded in a child process, where a panic, process death, over 10 s or allocation above 256 x len + 64 MiB for one input, or an accepted message that is malformed or does not re-encode to itself is a violation. Held = on the inputs of this run.",
+ "C16": ("exploration", "seeded generators with real BLS elements + structure-aware JSON/type-prefix/hex/BLS-point mutator over valid encodings, raw-socket wire cases against the real connection framing and reader, child-process batches with progress-file crash attribution, hang/RSS watchdog and per-input allocation accounting; thorough re-runs a slice under go build -asan",
+         "Every generated message of the six types is encoded and decoded by the real codec and compared field by field; every mutated or random byte string up to the 2 MiB receive limit is decoded in a child process, where a panic, process death, over 10 s or allocation above 256 x len + 64 MiB for one input, or an accepted message that is malformed or does not re-encode to itself is a violation. Wire cases drive the framing of connection.Conn and the real fractal reader over loopback TCP with raw writes in seeded pieces (whole, header byte by byte, random cuts, fixed segment sizes, coalesced frames, bodies at the size boundaries up to the 2 MiB receive limit): messages and frames must come out equal and in order, a frame above the limit sent in full must not be delivered and an announced 64 MiB-1 GiB frame must not be allocated. Held = on the inputs of this run.",
          "the prebuilt BLS archives are not instrumented (asan sees only intercepted libc calls); allocation bound is a proxy for 'exhausts memory'",
          "DESIGN.md §3 C16"),
  "C17": ("exploration", "in-process cluster topologies (superior, pools, relays, collectors over loopback TCP with scripted keepers) under -race with a fault-injecting TCP proxy and schedule hooks (H6); client-boundary event log judged by an offline oracle, watchdog plus goroutine-dump attribution for non-returning calls",
@@ -78,7 +78,7 @@ CHECKS = {
          "trusts internal/ref (self-checked against BIP32 vectors 1-4 and BIP39 English vectors at start-up), Go's crypto/hmac, sha512, math/big",
          "DESIGN.md §3 C18"),
  "C19": ("exploration", "model-based runtime monitoring: seeded adversarial operation sequences on the real leveldb-backed bucket store, differential against a tree-of-maps reference with full logical dumps",
-         "300 (quick) / 20 000 (thorough) seeded sequences of 60 / 120 bucket, key and transaction operations with layout-imitating names and keys are applied to the real store and to a tree-of-maps model; every result, error class and a full logical dump after each commit, rollback and reopen is compared (ten sequences share one store, so earlier sequences' buckets are re-checked too). Held on all sequences explored; histories not generated are not covered.",
+         "300 (quick) / 20 000 (thorough) seeded sequences of 60 / 120 bucket, key and transaction operations with layout-imitating names and keys are applied to the real store and to a tree-of-maps model; every result, error class and a full logical dump after each commit, rollback and reopen is compared (ten sequences share one store, so earlier sequences' buckets are re-checked too); one sequence in six nests buckets to depth 11-14. Held on all sequences explored; histories not generated are not covered.",
          "edge semantics (which names/keys/values are rejected, handles designate paths) are taken from the code and its tests and listed in the driver; goleveldb itself is trusted only as far as the dumps confirm it",
          "DESIGN.md §3 C19"),
  "C20": ("exploration", "seeded adversarial-input differential monitoring of the real gateway chain, api.Server handlers over scripted space keepers, and the amount codec, against net/netip, massutil and math/big reference oracles",
